@@ -52,7 +52,18 @@ func sanitize(s string) string {
 	return b.String()
 }
 
-func shortQual(p *types.Package) string { return p.Name() }
+func shortQual(p *types.Package) string {
+	// repository packages and well-known top-level standard packages by name; everything else by full path so that
+	// e.g. sync.Mutex and internal/sync.Mutex get different symbols
+	if strings.HasPrefix(p.Path(), "github.com/redis/rueidis") || !strings.Contains(p.Path(), "/") {
+		return p.Name()
+	}
+	switch p.Path() {
+	case "sync/atomic", "net/url", "crypto/tls", "encoding/binary", "encoding/json":
+		return p.Name()
+	}
+	return p.Path()
+}
 
 // typeName gives a stable identifier for a Go type usable inside SMT symbols.
 func (s *Sorts) typeName(t types.Type) string {
